@@ -29,8 +29,9 @@ func checkC11(c *Check, a *Anchors) {
 	c18FieldsClassified(c, a) // a new field of Executor / Compiler is state shared by every call: it must be reviewed (memo tables make a task depend on history)
 	noInPlaceMutationOfShared(c, a, "no-in-place-mutation")
 	copyReturnsFresh(c, a, "copy-returns-fresh")
-	c10WriteOrder(c, a) // every value the variable resolver stores is the templater's (deep) copy: a map handed over by ref: is not shared between the calls that receive it
-	c08CopyExhaustive(c, a) // the per-call copy of a task must not share mutable elements (matrix rows, globs ...) with the definition: one call's resolved values would reach the next
+	c10WriteOrder(c, a)      // every value the variable resolver stores is the templater's (deep) copy: a map handed over by ref: is not shared between the calls that receive it
+	c08CopyExhaustive(c, a)  // the per-call copy of a task must not share mutable elements (matrix rows, globs ...) with the definition: one call's resolved values would reach the next
+	hashOptionsDefault(c, a) // two calls whose compiled forms differ must not share one execution: the second would observe the first one's values instead of running with its own
 }
 
 // runPhaseRoots: functions whose reachable code runs concurrently / per call.
